@@ -66,6 +66,8 @@ func decide(prop, hd string, files []string, pkgName string, sums []*gosym.Harne
 		v    *gosym.Violation
 		rf   replayFile
 		path string
+		alt  bool // a further counterexample for an obligation that already has one
+		used bool // (primary) replaced by an alternate that reproduced
 	}
 	var cands []*cand
 	for _, s := range sums {
@@ -117,6 +119,20 @@ func decide(prop, hd string, files []string, pkgName string, sums []*gosym.Harne
 			path := filepath.Join(dir, fmt.Sprintf("%s-%s-%x.json", strings.TrimPrefix(v.Harness, "vh_"+prop+"_"), sanitize(label), h[:4]))
 			os.WriteFile(path, b, 0o644)
 			cands = append(cands, &cand{v: v, rf: rf, path: path})
+			for _, av := range s.Alternates[label] {
+				arf := replayFile{Property: prop, PkgDir: pkgDirOf(hd), Harness: av.Harness, Label: av.Label, Tier: tier, Msg: av.Msg, Pos: av.Pos,
+					Inputs: av.Inputs, Apps: av.Apps, Choices: av.Choices, Decisions: av.Decisions, Trace: av.Trace, Sched: av.Sched, BaseG: av.BaseG, Retry: rf.Retry}
+				for _, d := range av.Decisions {
+					if d.Kind == "maporder" || d.Kind == "sched" || d.Kind == "select" || d.Kind == "pool" {
+						arf.Retry = true
+					}
+				}
+				ab, _ := json.Marshal(arf)
+				ah := sha1.Sum(ab)
+				apath := filepath.Join(dir, fmt.Sprintf("%s-%s-%x.json", strings.TrimPrefix(av.Harness, "vh_"+prop+"_"), sanitize(label), ah[:4]))
+				os.WriteFile(apath, ab, 0o644)
+				cands = append(cands, &cand{v: av, rf: arf, path: apath, alt: true})
+			}
 		}
 	}
 	results := make([]string, len(cands))
@@ -128,10 +144,37 @@ func decide(prop, hd string, files []string, pkgName string, sums []*gosym.Harne
 		results = nativeReplayBatch(pkgDirOf(hd), paths, files, pkgName, instrument)
 		ev.Replays += len(cands)
 	}
+	// an obligation whose first counterexample does not reproduce is represented by the first alternate that does
+	if doReplay {
+		for i := 0; i < len(cands); i++ {
+			if cands[i].alt || strings.HasPrefix(results[i], "reproduced") {
+				continue
+			}
+			for j := i + 1; j < len(cands) && cands[j].alt; j++ {
+				if strings.HasPrefix(results[j], "reproduced") {
+					cands[i].used = true
+					cands[j].alt = false
+					break
+				}
+			}
+		}
+	}
 	for i, c := range cands {
 		v := c.v
 		label := v.Label
 		reproduced := true
+		if c.alt || c.used {
+			// a spare: either not needed or did not help
+			if doReplay {
+				c.rf.Native = results[i]
+				b, _ := json.MarshalIndent(c.rf, "", " ")
+				os.WriteFile(c.path, b, 0o644)
+				if !strings.HasPrefix(results[i], "reproduced") && !c.alt {
+					ev.Problems = append(ev.Problems, fmt.Sprintf("%s/%s: one counterexample did not reproduce natively, another one did (%s)", v.Harness, label, firstLine(results[i])))
+				}
+			}
+			continue
+		}
 		if doReplay {
 			reproduced = strings.HasPrefix(results[i], "reproduced")
 			c.rf.Native = results[i]
@@ -382,6 +425,8 @@ func nativeReplayBatch(pkgRel string, paths []string, files []string, pkgName st
 		switch {
 		case lbl == "crash" && nativeCrashed(o):
 			results[i] = "reproduced: process crashed natively: " + firstPanicLine(o)
+		case lbl == "crash" && runawayRecursion(paths[i]) && deepStack(o):
+			results[i] = "reproduced: the native run recursed without end until the test deadline (the engine stopped at call depth 400)"
 		case lbl == "deadlock" && (strings.Contains(o, "test timed out") || strings.Contains(o, "all goroutines are asleep")):
 			results[i] = "reproduced: native run deadlocked / timed out"
 		default:
@@ -422,6 +467,31 @@ func firstPanicLine(o string) string {
 		}
 	}
 	return ""
+}
+
+// runawayRecursion: the engine ended this path because the call depth exceeded its limit.
+func runawayRecursion(path string) bool {
+	b, err := os.ReadFile(path)
+	if err != nil {
+		return false
+	}
+	var rf replayFile
+	json.Unmarshal(b, &rf)
+	for _, l := range rf.Trace {
+		if strings.Contains(l, "stack overflow") {
+			return true
+		}
+	}
+	return false
+}
+
+// deepStack: the goroutine dump of a timed-out replay shows one goroutine hundreds of frames deep in the same
+// function - a recursion that has not ended by the test deadline.
+func deepStack(o string) bool {
+	if !strings.Contains(o, "test timed out") {
+		return false
+	}
+	return strings.Contains(o, "frames elided...")
 }
 
 // nativeCrashed: the replay process died of a Go panic or runtime fatal error of its own - not of the test deadline
